@@ -378,7 +378,7 @@ def guided_exits(g, N, cut_edges=()):
     return list(exits.values())
 
 
-def walk_eval(g, N, env, start=None, stop=None, max_steps=300, unsigned=True):
+def walk_eval(g, N, env, start=None, stop=None, max_steps=300, unsigned=True, concrete_idx=False):
     """follow the CFG deterministically from `start` (default entry) under a concrete environment for some atoms
     (canonical expressions -> ints): conditions must be evaluable, assignments to tracked atoms / locals are applied
     when evaluable (otherwise the target is forgotten). Stops at node id in `stop`, at a ret/term/exit, or when a
@@ -408,6 +408,13 @@ def walk_eval(g, N, env, start=None, stop=None, max_steps=300, unsigned=True):
                 if ev['t'] != 'write':
                     continue
                 l = N.canon(ev['lhs'])
+                if concrete_idx and l[0] == 'idx':
+                    try:
+                        l = ('idx', l[1], ('int', loops.ev(l[2], env, unsigned=unsigned)))
+                    except loops.NoEval:
+                        pass
+                if ev['op'] == '=' and ev['rhs'] is not None and N.canon(ev['lhs']) == N.canon(ev['rhs']):
+                    continue      # the definition of a local the normaliser has expanded everywhere
                 try:
                     if ev['op'] == '=':
                         env[l] = loops.ev(N.canon(ev['rhs']), env, unsigned=unsigned)
